@@ -70,12 +70,17 @@ class Ctx:
             self.per = 2
         else:
             ri, de = env['rises'], env['decays']
-            self.sR, self.sD = store(ri), store(de)
+            # a kind of midpoint that is not supplied is modelled as a virtual slot sitting on the extremum before it (no
+            # store goes through it)
+            self.sR = store(ri) if ri is not None else None
+            self.sD = store(de) if de is not None else None
             # midpoints after an A extremum / after a B extremum
             self.MA, self.MB = (de, ri) if first == 'peak' else (ri, de)
             self.M = 2 * (self.nA + self.nB) - 1
-            self.c = lambda q: z3.If(q % 4 == 0, rdi(self.A, q / 4), z3.If(q % 4 == 1, rdi(self.MA, (q - 1) / 4),
-                                     z3.If(q % 4 == 2, rdi(self.B, (q - 2) / 4), rdi(self.MB, (q - 3) / 4))))
+            mA = (lambda k: rdi(self.MA, k)) if self.MA is not None else (lambda k: rdi(self.A, k))
+            mB = (lambda k: rdi(self.MB, k)) if self.MB is not None else (lambda k: rdi(self.B, k))
+            self.c = lambda q: z3.If(q % 4 == 0, rdi(self.A, q / 4), z3.If(q % 4 == 1, mA((q - 1) / 4),
+                                     z3.If(q % 4 == 2, rdi(self.B, (q - 2) / 4), mB((q - 3) / 4))))
             tslot = (lambda q: q % 4 == 2) if first == 'peak' else (lambda q: q % 4 == 0)      # trough slots
             pslot = (lambda q: q % 4 == 0) if first == 'peak' else (lambda q: q % 4 == 2)
             dslot = (lambda q: q % 4 == 1) if first == 'peak' else (lambda q: q % 4 == 3)      # decay slots
@@ -90,9 +95,12 @@ class Ctx:
             self.valV = lambda q: ite(self.isT(q), mpi, ite(self.isP(q), zero, own(q)))
             sA, sB = (self.sP, self.sT) if first == 'peak' else (self.sT, self.sP)
             sMA, sMB = (self.sD, self.sR) if first == 'peak' else (self.sR, self.sD)
-            sA['slot'], sMA['slot'], sB['slot'], sMB['slot'] = (lambda w: 4 * w), (lambda w: 4 * w + 1), (lambda w: 4 * w + 2), \
-                (lambda w: 4 * w + 3)
-            self.stores = [self.sT, self.sP, self.sD, self.sR]
+            sA['slot'], sB['slot'] = (lambda w: 4 * w), (lambda w: 4 * w + 2)
+            if sMA is not None:
+                sMA['slot'] = lambda w: 4 * w + 1
+            if sMB is not None:
+                sMB['slot'] = lambda w: 4 * w + 3
+            self.stores = [x for x in (self.sT, self.sP, self.sD, self.sR) if x is not None]
             self.per = 4
         self.sel = lambda x: z3.Or(*[s['hit'](x) for s in self.stores])
 
@@ -154,7 +162,8 @@ def knots(P, K):
     for s in K.stores:
         w = s['wit'](c(q))
         r = s['slot'](w)
-        by += [P.inst_formula(s['ax'][0], q / K.per), P.inst_formula(s['ax'][0], q / K.per - 1), P.inst_formula(s['ax'][1], c(q))]
+        by += [P.inst_formula(s['ax'][0], q / K.per), P.inst_formula(s['ax'][0], q / K.per - 1), P.inst_formula(s['ax'][0], (q - 1) / K.per),
+               P.inst_formula(s['ax'][1], c(q))]
         by += _req_idx(P, K, w)
         if K.mode == 'ext':
             # (strictness between distinct slots: adjacent slots are two apart)
@@ -168,13 +177,16 @@ def knots(P, K):
         concl = z3.And(sel(c(q)), z3.Implies(K.isT(q), z3.And(hitT(c(q)), z3.Not(hitP(c(q))))),
                        z3.Implies(z3.Not(K.isT(q)), z3.And(hitP(c(q)), z3.Not(hitT(c(q))))))
     else:
-        hitD, hitR = K.sD['hit'], K.sR['hit']
+        false = lambda x: z3.BoolVal(False)
+        hitD = K.sD['hit'] if K.sD is not None else false
+        hitR = K.sR['hit'] if K.sR is not None else false
         inside = z3.And(q % 2 == 1, c(q - 1) < c(q), c(q) < c(q + 1))
         concl = z3.And(sel(c(q)),
                        z3.Implies(K.tslot(q), hitT(c(q))),
                        z3.Implies(K.pslot(q), z3.And(hitP(c(q)), z3.Not(hitT(c(q))))),
                        z3.Implies(inside, z3.And(z3.Not(hitT(c(q))), z3.Not(hitP(c(q))),
-                                                 z3.If(K.dslot(q), z3.And(hitD(c(q)), z3.Not(hitR(c(q)))), z3.And(hitR(c(q)), z3.Not(hitD(c(q))))))))
+                                                 z3.If(K.dslot(q), z3.And(hitD(c(q)), z3.Not(hitR(c(q)))),
+                                                       z3.And(hitR(c(q)), z3.Not(hitD(c(q))))))))
     P.forall('knot:hit', [q], z3.And(q >= 0, q < M), concl, by=by)
     E.st.ghost['eip_knots'] = True
 
@@ -361,8 +373,15 @@ def midpoint_clauses(first):
             "forall(k, 0 <= k < len(decays), decays[k] == %s or decays[k] == %s or result[decays[k]] == np.pi / 2)" % (dl, dr)]
 
 
-ENSURES_USING_MID = dict(ENSURES_USING)
-ENSURES_USING_MID.update({7: ['res:rises'], 8: ['res:decays']})
+def ensures_mid(first, has_r=True, has_d=True):
+    """(clauses, per-clause facts) for a call with the given kinds of midpoints"""
+    mc = midpoint_clauses(first)
+    ens, using = list(ENSURES), dict(ENSURES_USING)
+    for have, clause, fact in ((has_r, mc[0], 'res:rises'), (has_d, mc[1], 'res:decays')):
+        if have:
+            ens.append(clause)
+            using[len(ens)] = [fact]
+    return ens, using
 
 
 def before_return(first, mode='ext'):
@@ -428,8 +447,10 @@ def before_return(first, mode='ext'):
         anchor('res:troughs', K.sT, ENSURES[2])
         if K.mode != 'ext':
             mc = midpoint_clauses(first)
-            anchor('res:rises', K.sR, mc[0])
-            anchor('res:decays', K.sD, mc[1])
+            if K.sR is not None:
+                anchor('res:rises', K.sR, mc[0])
+            if K.sD is not None:
+                anchor('res:decays', K.sD, mc[1])
         # ---- range of the two branch series (independent of the slot structure: enclosing sample points of np.interp)
         recs = E.st.ghost['interp']
         pi_, mpi = _xc(PI), _xc(-PI)
